@@ -191,6 +191,26 @@ def stream_reuse(records):
     return sum(1 for v in by_state.values() if len(v) > 1)
 
 
+def reused_near(records, seed, window=256):
+    """
+    Seed arguments of re-used streams that are the caller's seed plus a small
+    offset: derived from it by arithmetic, not drawn from a parent generator
+    (a drawn child seed lands in that window with probability 3e-4, on top of
+    the 1e-6 of coinciding at all).
+    """
+    by_state = {}
+    for r in records:
+        if r['what'] == 'default_rng' and not r['moved']:
+            continue
+        by_state.setdefault((r['what'], r['initial']), []).append(r)
+    out = []
+    for v in by_state.values():
+        if len(v) > 1 and v[0].get('arg') is not None and \
+                0 <= v[0]['arg'] - seed < window:
+            out.append(v[0]['arg'])
+    return out
+
+
 def perfect_dependence(entry, args, res):
     """D4(ii): two cells perfectly dependent across the sample axis."""
     if is_exc(res) or not isinstance(res, np.ndarray):
@@ -351,6 +371,19 @@ def run(scenario, world):
                     others[seed] = res
                 # D4(i): one stream used twice, systematically
                 if stream_reuse(recs):
+                    near = reused_near(recs, seed)
+                    if near:
+                        # holds for this seed whatever other seeds do (a
+                        # slip that only bites for seed 0, say)
+                        raise Violation(
+                            'D4.stream_reuse', 'same_initial_state',
+                            '%s args %d seed %d: generators seeded with %s '
+                            '(the caller\'s seed plus an offset) are created '
+                            'more than once inside one draw and all produce '
+                            'variates: %s' % (
+                                e.kind, ai, seed, near,
+                                [(r['what'], r['kind'], r['arg'], r['moved'])
+                                 for r in recs]), step)
                     systematic = True
                     for extra in (1000003, 2000003):
                         rng_seam.begin_records()
